@@ -35,6 +35,13 @@ THEOREMS = [
     "Spydr.Eblif.conn_merges",
     "Spydr.Eblif.one_instance_per_stmt",
     "Spydr.Eblif.names_latch_shape",
+    "Spydr.Eblif.pins_exact",
+    "Spydr.Eblif.pins_exact_from",
+    "Spydr.Eblif.pins_exact_closed",
+    "Spydr.Eblif.no_pin_on_two_wires",
+    "Spydr.Eblif.info_attached",
+    "Spydr.Eblif.hdr_ports",
+    "Spydr.Eblif.hdr_joins_persist",
     "Spydr.Eblif.blackbox_leaf",
     "Spydr.Eblif.parse_rendered_subckt",
     "Spydr.Eblif.eblif_reader_spec_partial",
@@ -49,6 +56,7 @@ FINDING = {
     "cname-default": "eblif.provisional-name-collides-with-cname",
     "inner-comment": "eblif.comment-inside-statement-group",
     "conn": "eblif.conn-not-persistent-or-not-written",
+    "multi-driver": "eblif.net-derived-name-taken",
 }
 # which clauses a mechanism is allowed to explain (prefix match on the clause after the stage)
 EXPLAINS = {
@@ -58,17 +66,21 @@ EXPLAINS = {
     "cname-default": ["raises.value", "corr."],
     "inner-comment": ["instances.cname", "instances.data", "ports", "nets", "corr.", "blackbox-ports"],
     "conn": ["nets", "raises.value", "raises.assert", "corr."],
+    "multi-driver": ["raises.value", "corr."],
 }
-HZ_ORDER = ["latch-growth", "cname-default", "conn", "inner-comment", "port-growth", "blackbox-ports"]
+HZ_ORDER = ["latch-growth", "multi-driver", "cname-default", "conn", "inner-comment", "port-growth", "blackbox-ports"]
 OPTS = [(True, True), (False, True), (True, False), (False, False)]
 
 
 # ---------------------------------------------------------------------------------------------
-def py_lex(text):
-    """the implementation's token stream as the parser sees it through Tokenizer.next()"""
-    import io
+def py_lex(text, tmp):
+    """the implementation's token stream as the parser sees it through Tokenizer.next(), read from
+    a real file (text mode: universal newlines)"""
     from spydrnet.parsers.eblif.eblif_tokenizer import Tokenizer
-    t = Tokenizer.from_stream(io.StringIO(text))
+    p = os.path.join(tmp, "lex.eblif")
+    with open(p, "w", newline="", encoding="utf-8") as f:
+        f.write(text)
+    t = Tokenizer.from_filename(p)
     out = []
     try:
         while True:
@@ -78,7 +90,44 @@ def py_lex(text):
             out.append(None if w == "\n" else w)
     except StopIteration:
         out.append("<stop>")
+    finally:
+        try:
+            t.input_stream.close()       # the Tokenizer itself never closes its stream
+        except Exception:
+            pass
     return out
+
+
+WS_CHARS = [" ", " ", " ", "\t", "\x0b", "\x0c", "\x1c", "\x1d", "\x1e", "\x1f", "\x85", "\xa0", "\u1680", "\u2003",
+            "\u2028", "\u2029", "\u202f", "\u205f", "\u3000"]
+
+
+def gen_lextext(rng):
+    """words separated by every kind of blank str.split() knows, lines ended by \\n, \\r\\n or \\r,
+    a `\\` word only where at least two more tokens follow and not next to another one"""
+    lines = []
+    for _ in range(rng.randint(1, 6)):
+        ws = [G._word(rng, "abc.#xyz", G.VAL_CHARS, 0, 5) for _ in range(rng.randint(0, 5))]
+        lines.append(ws)
+    lines.append([G._word(rng, "abc", G.ID_CHARS, 0, 3)])
+    text = ""
+    for li, ws in enumerate(lines):
+        if li < len(lines) - 1 and ws and lines[li + 1] and rng.random() < 0.3:
+            ws = ws + ["\\"]
+        sep = lambda: "".join(rng.choice(WS_CHARS) for _ in range(rng.choice([1, 1, 1, 2])))
+        text += (sep() if rng.random() < 0.2 else "") + sep().join(ws) + (sep() if rng.random() < 0.3 else "")
+        text += rng.choice(["\n", "\n", "\n", "\r\n", "\r"]) if li < len(lines) - 1 or rng.random() < 0.8 else ""
+    return text
+
+
+def lex_case(res, text, drv, tmp, origin):
+    pl = py_lex(text, tmp)
+    ml = drv.ask({"fn": "lex", "text": text}).get("toks")
+    if pl != ml:
+        res.corr_mismatch("lex corr.lex", {"origin": origin, "lextext": text}, impl=diff_path(pl, ml)[:400])
+        res.spec_failure("lex.tokens", {"origin": origin, "lextext": text},
+                         "Tokenizer stream differs from the proved lexer model (lexB): " + diff_path(pl, ml)[:300])
+    res.dist("origin:lexfuzz")
 
 
 def impl_parse(text, tmp):
@@ -136,7 +185,7 @@ def reader_stage(stage, text, design, drv, tmp, recs, lexcheck=True):
     """parse `text` with the implementation and the model; P_parse when a design is known.
     Appends records (stage, kind, clause, detail); returns (nl, obs)."""
     if lexcheck:
-        pl = py_lex(text)
+        pl = py_lex(text, tmp)
         ml = drv.ask({"fn": "lex", "text": text}).get("toks")
         if pl != ml:
             recs.append((stage, "corr", "corr.lex", diff_path(pl, ml)))
@@ -341,6 +390,13 @@ def tags(res, design, obs1, att):
         res.dist("has:declared-blackbox")
     if any(not bb["declared"] for bb in design["bbs"]):
         res.dist("has:undeclared-blackbox")
+    if any(bb.get("first") for bb in design["bbs"]):
+        res.dist("has:blackbox-before-top")
+    lay = design.get("lay", {})
+    if lay.get("junk_pre") or lay.get("junk_post") or any(bb.get("before") for bb in design["bbs"]):
+        res.dist("has:text-outside-model")
+    if any(s["k"] == "names" and len(s["nets"]) > 11 for s in st):
+        res.dist("has:names-11plus-inputs")
     for sig, r in att:
         res.dist("finding:" + str(sig) if r[1] == "P" else "corr-attributed:" + str(sig))
 
@@ -398,6 +454,10 @@ def worker(kind, seed, shard_no, n, tier, payload, deadline=None):
     try:
         if kind == "inputs":
             for (origin, design, text, opts) in payload:
+                if design is None:
+                    lex_case(res, text, drv, tmp, origin)
+                    res.case(stable_hash(text), False)
+                    continue
                 recs, obs1, att = run_case(res, design, text, drv, tmp, opts, origin, do_shrink=False)
                 res.case(stable_hash(text), True)
                 tags(res, design, obs1, att)
@@ -420,8 +480,8 @@ def worker(kind, seed, shard_no, n, tier, payload, deadline=None):
                     break
                 r = rng.random()
                 hz = ()
-                if r < 0.30:
-                    hz = (rng.choice(["conn", "inner-comment", "latch-growth", "port-growth", "cname-default"]),)
+                if r < 0.32:
+                    hz = (rng.choice(["conn", "inner-comment", "latch-growth", "port-growth", "cname-default", "multi-driver"]),)
                 design = G.gen_design(rng, hazards=hz)
                 text = L.render(design)
                 opts = [OPTS[0]] + rng.sample(OPTS[1:], 1) if tier == "quick" else OPTS
@@ -430,6 +490,10 @@ def worker(kind, seed, shard_no, n, tier, payload, deadline=None):
                 tags(res, design, obs1, att)
                 if ci < 1:
                     res.sample({"text": text[:1500]})
+                if ci % 6 == 0:
+                    lt = gen_lextext(rng)
+                    lex_case(res, lt, drv, tmp, "lexfuzz:%d:%d" % (shard_no, ci))
+                    res.case(stable_hash(lt), False)
     finally:
         drv.close()
         shutil.rmtree(tmp, ignore_errors=True)
@@ -439,6 +503,8 @@ def worker(kind, seed, shard_no, n, tier, payload, deadline=None):
 def resolve_input(x):
     """a replay / corpus entry -> (design, text, opts)"""
     opts = [tuple(o) for o in x.get("opts", OPTS)]
+    if "lextext" in x:
+        return None, x["lextext"], opts
     if "design" in x:
         return x["design"], (x.get("text") or L.render(x["design"])), opts
     origin = x.get("origin", "")
@@ -495,8 +561,8 @@ def run(ctx):
         lean.leanchecker(ctx, MODULES)
     jobs = [("inputs", ctx.seed, 0, 0, ctx.tier, inputs[i::4]) for i in range(4) if inputs[i::4]]
     nsh = 14
-    per = ctx.scale(300, 1000)
-    deadline = time.time() + min(480.0, max(10.0, ctx.time_left() * 0.55))
+    per = ctx.scale(230, 1000)
+    deadline = time.time() + min(ctx.scale(30.0, 480.0), max(10.0, ctx.time_left() * 0.55))
     jobs += [("gen", ctx.seed, s, per, ctx.tier, None, deadline) for s in range(nsh)]
     shard.run_shards(ctx, worker, jobs)
     # a model/implementation divergence that is not explained by a known defect, and no failing
